@@ -142,12 +142,40 @@ static MPI_Offset *imap_of(Req *r, MPI_Offset *v)
     return v;
 }
 
+/* Buffer layouts (bl).  KD = number of elements per derived-type instance where one is used.
+ *   0 predefined type, bufcount = nelems        1 MPI_DATATYPE_NULL
+ *   2 vector(nelems,1,2), bufcount 1 (gaps)     3 (unused here)
+ *   4 contiguous(KD), bufcount = nelems/KD      (a CONTIGUOUS derived type: bufcount != nelems)
+ *   5 etype resized to 2 elements, bufcount = nelems (gaps)
+ *   6 nested: vector(nelems/2,1,2, contiguous(2)), bufcount 1 (pairs with gaps)
+ *   7 vector(KD,1,2), bufcount = nelems/KD > 1  (extent 2*KD-1 elements)
+ *   8 nested contiguous: contiguous(2, contiguous(KD/2)), bufcount = nelems/KD
+ * laypos(bl,p) = position (in elements) of the p-th packed element, layelems = elements spanned */
+#define KD 4
+static size_t laypos(int bl, size_t p)
+{
+    switch (bl) {
+    case 2: case 5: return 2 * p;
+    case 6: return 4 * (p / 2) + p % 2;
+    case 7: return (p / KD) * (2 * KD - 1) + 2 * (p % KD);
+    default: return p;
+    }
+}
+static size_t layelems(int bl, size_t n)
+{
+    switch (bl) {
+    case 2: case 5: case 6: return 2 * n;
+    case 7: return (n / KD) * (2 * KD - 1);
+    default: return n;
+    }
+}
+
 /* memory position (in elements) of the k-th element (row-major order of the request) */
 static size_t mempos(Req *r, size_t k)
 {
     size_t pos = k;
     if (r->imap && vnd[r->var] == 2) { size_t c1 = (size_t)r->ct[0][1], i0 = k / c1, i1 = k % c1; pos = i0 * 1 + i1 * (size_t)r->ct[0][0]; }
-    return (r->bl == 2) ? 2 * pos : pos;
+    return laypos(r->bl, pos);
 }
 
 /* contiguous reference read of the request's elements in memory type etype */
@@ -318,7 +346,7 @@ int main(int argc, char **argv)
             }
             r->etype = mt2mpi(r->mt, r->var);
             { int sz; MPI_Type_size(r->etype, &sz); r->esize = (size_t)sz; }
-            r->memelems = (r->bl == 2) ? 2 * r->nelems : r->nelems;
+            r->memelems = layelems(r->bl, r->nelems);
             r->bytes = r->memelems * r->esize;
             r->mem = (unsigned char *)calloc(r->bytes + 2 * GUARD + SLACK, 1);
             memset(r->mem, 0xA5, r->bytes + 2 * GUARD);
@@ -333,6 +361,11 @@ int main(int argc, char **argv)
             memcpy(r->orig, r->buf, r->bytes);
             if (r->bl == 1) { r->buftype = MPI_DATATYPE_NULL; r->bufcount = 0; }
             else if (r->bl == 2) { MPI_Type_vector((int)r->nelems, 1, 2, r->etype, &r->buftype); MPI_Type_commit(&r->buftype); r->bufcount = 1; r->free_type = 1; }
+            else if (r->bl == 4) { MPI_Type_contiguous(KD, r->etype, &r->buftype); MPI_Type_commit(&r->buftype); r->bufcount = (MPI_Offset)(r->nelems / KD); r->free_type = 1; }
+            else if (r->bl == 5) { MPI_Type_create_resized(r->etype, 0, (MPI_Aint)(2 * r->esize), &r->buftype); MPI_Type_commit(&r->buftype); r->bufcount = (MPI_Offset)r->nelems; r->free_type = 1; }
+            else if (r->bl == 6) { MPI_Datatype c2; MPI_Type_contiguous(2, r->etype, &c2); MPI_Type_vector((int)(r->nelems / 2), 1, 2, c2, &r->buftype); MPI_Type_commit(&r->buftype); MPI_Type_free(&c2); r->bufcount = 1; r->free_type = 1; }
+            else if (r->bl == 7) { MPI_Type_vector(KD, 1, 2, r->etype, &r->buftype); MPI_Type_commit(&r->buftype); r->bufcount = (MPI_Offset)(r->nelems / KD); r->free_type = 1; }
+            else if (r->bl == 8) { MPI_Datatype c2; MPI_Type_contiguous(KD / 2, r->etype, &c2); MPI_Type_contiguous(2, c2, &r->buftype); MPI_Type_commit(&r->buftype); MPI_Type_free(&c2); r->bufcount = (MPI_Offset)(r->nelems / KD); r->free_type = 1; }
             else { r->buftype = r->etype; r->bufcount = (MPI_Offset)r->nelems; }
             if (r->op == 'P') { watch_buf = r->buf; watch_orig = r->orig; watch_len = r->bytes; seen_user = seen_swapped = seen_other = 0; }
             err = do_call(r);
